@@ -28,6 +28,10 @@ def model(*patterns, exact=()):
     return deco
 
 
+def _meth(name):
+    return strip_generics(name).split('::')[-1]
+
+
 def dispatch(it, name, a, fn):
     h = _CACHE.get(name)
     if h is None:
@@ -114,12 +118,19 @@ def iter_of(it, x):
         return x
     if isinstance(x, str):
         raise Unsupported('iteration over str')
+    if isinstance(x, Adt) and it.p.by_method.get((x.ty, 'next')):
+        return x0      # an iterator type defined in the crate: IntoIterator is the identity
     raise Unsupported('into_iter of %r' % (x0,))
 
 
 def iter_next(it, itv, back=False):
+    ref0 = itv if isinstance(itv, Ref) else None
     if isinstance(itv, Ref):
         itv = it.deref(itv)
+    if isinstance(itv, Adt) and itv.ty not in ('Range', 'RangeInclusive', 'Option') and it.p.by_method.get((itv.ty, 'next')):
+        f = it.p.method(itv.ty, 'next')
+        r = innermost_ref(it, ref0) if ref0 is not None else Ref(Cell(itv))
+        return it.run(f, [r])
     if isinstance(itv, Adt):
         if itv.ty == 'Range':
             s, e = itv.f
@@ -824,7 +835,7 @@ def m_slice_first_last(it, name, a):
     v = it.read(r.cell, r.path).items
     if not v:
         return none()
-    i = len(v) - 1 if 'last' in name.split('::')[-1] else 0
+    i = len(v) - 1 if 'last' in _meth(name) else 0
     return some(elem_ref(r, i))
 
 
@@ -898,6 +909,44 @@ def _lt(it, a, b):
     if z3.is_expr(a) or z3.is_expr(b):
         return it.binop('Lt', a, b, 'i32')
     raise Unsupported('ordering of %r, %r' % (a, b))
+
+
+@model(r'(core::)?slice::<impl \[.*\]>::sort(_unstable)?_by_key(::<.*>)?', r'std::slice::<impl \[.*\]>::sort(_unstable)?_by_key(::<.*>)?',
+       r'(core::)?slice::<impl \[.*\]>::sort_by_cached_key(::<.*>)?')
+def m_slice_sort_by_key(it, name, a):
+    r = innermost_ref(it, a[0])
+    v = it.read(r.cell, r.path)
+    clo = as_callable_ref(it, a[1])
+    keyed = []
+    for i in range(len(v.items)):
+        keyed.append((it.call_closure_ref(clo, [elem_ref(r, i)]), v.items[i]))
+    out = []
+    for kx in keyed:
+        pos = len(out)
+        while pos > 0 and it.decide(_lt(it, kx[0], out[pos - 1][0])):
+            pos -= 1
+        out.insert(pos, kx)
+    v.items = [x for _, x in out]
+    return UNIT
+
+
+@model(r'(core::)?slice::<impl \[.*\]>::sort(_unstable)?_by(::<.*>)?', r'std::slice::<impl \[.*\]>::sort(_unstable)?_by(::<.*>)?')
+def m_slice_sort_by(it, name, a):
+    r = innermost_ref(it, a[0])
+    v = it.read(r.cell, r.path)
+    clo = as_callable_ref(it, a[1])
+    items = list(v.items)
+    out = []
+    for x in items:
+        pos = len(out)
+        while pos > 0:
+            o = it.call_closure_ref(clo, [Ref(Cell(x)), Ref(Cell(out[pos - 1]))])
+            if o.variant != 'Less':
+                break
+            pos -= 1
+        out.insert(pos, x)
+    v.items = out
+    return UNIT
 
 
 @model(r'core::slice::<impl \[.*\]>::reverse')
@@ -1270,7 +1319,7 @@ def m_clone(it, name, a):
 
 @model(r'<.* as (PartialOrd|Ord)(<.*>)?>::(lt|le|gt|ge|cmp|partial_cmp|max|min)')
 def m_ord(it, name, a):
-    op = name.split('::')[-1]
+    op = _meth(name)
     if op in ('max', 'min'):
         x, y = a[0], a[1]
         lt = it.decide(_lt(it, y, x))
@@ -1413,7 +1462,7 @@ def m_map_keys(it, name, a):
     return IterV('owned', [Ref(Cell(e[0])) for e in _ordered_entries(it, it.deref(a[0]))], 0)
 
 
-@model(exact=('HashMap::values', 'BTreeMap::values', 'HashMap::values_mut', 'serde_json::Map::values'))
+@model(exact=('HashMap::values', 'BTreeMap::values', 'HashMap::values_mut', 'BTreeMap::values_mut', 'serde_json::Map::values', 'serde_json::Map::values_mut'))
 def m_map_values(it, name, a):
     return IterV('owned', [Ref(e[1]) for e in _ordered_entries(it, it.deref(a[0]))], 0)
 
@@ -1598,7 +1647,7 @@ def m_is_control(it, name, a):
 
 @model(r'(core::)?char::methods::<impl char>::(is_ascii\w*|is_whitespace|is_alphabetic|is_numeric|is_alphanumeric|is_uppercase|is_lowercase|to_ascii_lowercase|to_ascii_uppercase|is_digit|to_digit|len_utf8)')
 def m_char_methods(it, name, a):
-    op = name.split('::')[-1]
+    op = _meth(name)
     c = a[0]
     if isinstance(c, Ref):
         c = it.deref(c)
